@@ -21,6 +21,7 @@ struct Scen
   std::map<long, std::optional<ToDo>> handles; // id -> handle (nullopt = dropped)
   std::map<long, std::vector<std::string>> bodies;
   std::set<long> known;
+  bool withResults = false; // C16: report every poll with its result (EINTR injected)
   long runs = 0;
 
   TimePoint At(long long ns) const { return TimePoint(std::chrono::nanoseconds(ns)); }
@@ -34,7 +35,11 @@ struct Scen
         auto e = l.find(' ', p);
         auto a = l.find("at=");
         auto ae = l.find(' ', a);
-        har::obs("poll " + l.substr(p + 8, e - p - 8) + " " + l.substr(a + 3, ae - a - 3));
+        std::string res = l.find("-> -1 errno=4") != std::string::npos ? "eintr" : (l.find("-> 0") != std::string::npos ? "timeout" : "ready");
+        auto d = l.find("adv=");
+        auto de = l.find(' ', d);
+        if(withResults) har::obs("poll " + l.substr(p + 8, e - p - 8) + " " + l.substr(a + 3, ae - a - 3) + " " + res + " " + l.substr(d + 4, de - d - 4));
+        else har::obs("poll " + l.substr(p + 8, e - p - 8) + " " + l.substr(a + 3, ae - a - 3));
       }
     }
   }
@@ -128,6 +133,9 @@ int main()
         std::string tok = w[0];
         for(size_t i = 1; i < w.size(); ++i) tok += ":" + w[i];
         sc.Apply(tok);
+      } else if(w[0] == "eintr" && w.size() == 2) {
+        sc.withResults = true;
+        vos::push("poll", sc.driver->impl->pipeTo.fd, "eintr", std::stol(w[1]));
       } else if(w[0] == "stop") {
         sc.driver->Stop();
       } else if(w[0] == "clock") {
@@ -141,6 +149,7 @@ int main()
           har::obs(std::string("throw ") + e.what());
         }
         sc.DrainPolls();
+        vos::clear_script();
         har::obs("end " + std::to_string(vos::now_ns()));
       }
     }
